@@ -14,10 +14,10 @@ CLAIMED = {
     'C01': ("7/C01",
             "Lean theorems over the executable model (any degree, any non-decreasing knot function, any span, any parameter, any dimension, any ordered field): "
             "each coordinate of the curve point computed by A3.1 equals the sum over ALL control points of Cox-de Boor basis function times control point; the "
-            "surface point equals the double tensor-product sum with the flat layout v + size_v*u; for positive weights the weight function is positive and the "
+            "surface point equals the double and the volume point the triple tensor-product sum with the flat layout v + size_v*(u + size_u*w); for positive weights the weight function is positive and the "
             "rational point is the quotient of the two sums; the sampled parameters are n strictly increasing values starting and ending exactly on the domain ends. "
             "The model is tied to Curve/Surface/Volume evaluate_single / evaluate_list / evalpts / derivatives(order=0) (BSpline and NURBS) by exact correspondence.",
-            "Not proved: the volume (triple) version of the tensor theorem and the agreement of the object layer's entry points (both covered by correspondence + exact oracle). "
+            "Not proved: the agreement of the object layer's entry points as a Lean statement (tied by correspondence + exact oracle). "
             "Known finding F-01 (sample size under normalize_kv=False) is reported as KNOWN-FINDING."),
     'C04': ("7/C04",
             "Lean theorems insert_preserves_curve (function level: spans found by the library's linear search before and after, EVERY parameter of the domain incl. both ends), insert_sequence_preserves (ANY sequence of admissible insertions, by induction over the request list, well-formedness preserved) and insert_preserves_curve_point: for every degree, sorted knot vector, control polygon of any dimension (homogeneous points for rational curves), "
@@ -77,13 +77,13 @@ CLAIMED = {
             "rotation about any centre with ANY c, s); the general lemmas for combinations with coefficients summing to one (surfaces, volumes) and for linear maps in homogeneous coordinates "
             "(rational shapes); the model's translate / rotate formulas. The model (maps act on Cartesian points, weights unchanged, rotation centre = evaluated start point, cos/sin passed as the "
             "doubles Python computes) is tied to operations.translate / rotate / scale on all six classes by exact correspondence; the oracle also checks inplace semantics, input snapshots and containers.",
-            "Not proved: the assembled statements for surfaces / volumes / rational shapes as theorems about surfacePointAt etc. (general lemmas are); object identity and containers are runtime notions (oracle only)."),
+            "Surfaces: proved (surface_affine_invariance). Not proved: the assembled statements for volumes / rational shapes as theorems about the model functions (general lemmas are); object identity and containers are runtime notions (oracle only)."),
     'C18': ("7/C18",
             "Lean theorems (any degree, knots, span, parameter, dimension): for every linear functional the value at the evaluated curve point lies between any bounds of the functional on the p+1 active "
             "control points (convex hull via all separating directions); every coordinate lies within the bounds of the control net (bounding box); clamped start and end: with p equal knots at the span "
             "start / end A2.2 returns (1,0,..,0) / (0,..,0,1) and the evaluated point is the first / last active control point; rational coefficients N_i w_i / sum are non-negative and sum to one. "
             "Model function boundingBox tied to the bbox property by exact correspondence; the exact oracle checks hull (axes + random directions), bbox, clamped ends on curves, surfaces, volumes, rational or not.",
-            "Not proved: surface / volume hull theorems as statements about surfacePointAt / volumePointAt; curve length bounds (floating point sqrt, oracle only)."),
+            "Surfaces: proved (surface_point_in_hull, every separating direction). Not proved: the volume hull theorem as a statement about volumePointAt; curve length bounds (floating point sqrt, oracle only)."),
     'C09': ("7/C09",
             "Lean theorems (23, all discharged): the list helpers combine / separate / generate_* are mutually inverse; for EVERY history of the three setters, the three reads and reverse the views "
             "satisfy ctrlptsw = combine(ctrlpts, weights) (invariant by induction over the op list); setter round trips; bspline_to_nurbs / nurbs_to_bspline; unit weights evaluate identically and a common "
